@@ -36,7 +36,7 @@ func guarded(f func()) (hang bool, panicked bool) {
 	select {
 	case p := <-done:
 		return false, p
-	case <-time.After(2 * time.Second):
+	case <-time.After(5 * time.Second): // generous: the machine may be busy; a walk that does not terminate never answers at all
 		return true, false
 	}
 }
